@@ -177,6 +177,15 @@ def write_if_changed(path, text):
     return True
 
 
+def main_generate():
+    here = os.path.dirname(os.path.abspath(__file__))
+    text, defs = generate()
+    out = os.path.join(here, "..", "lean", "YModel", "SymGen.lean")
+    ch = write_if_changed(out, text)
+    return {"symmetries": [d[1] for d in defs], "changed": ch,
+            "unknown": [d[1] for d in defs if ".unknown" in d[3]]}
+
+
 if __name__ == "__main__":
     here = os.path.dirname(os.path.abspath(__file__))
     text, defs = generate()
